@@ -376,6 +376,14 @@ fn parse_ranges(s: &str) -> Vec<Range> {
         .collect()
 }
 
+fn rt_block<F: std::future::Future>(f: F) -> F::Output {
+    tokio::runtime::Builder::new_current_thread()
+        .enable_all()
+        .build()
+        .expect("rt")
+        .block_on(f)
+}
+
 fn dummy_meta(epoch: u64) -> MigrationMeta {
     MigrationMeta {
         epoch,
@@ -558,6 +566,44 @@ fn apply(w: &mut World, toks: &[&str]) -> (String, String) {
         "recover" => {
             st.recover_epoch(u(toks[1]));
             (same, "ok".to_string())
+        }
+        "svcrecover" => {
+            // the broker process restarts from the current store as its snapshot (MemBrokerService::new restores it),
+            // then runs epoch recovery with the given largest proxy epoch through hook H4
+            // (= the production statement `self.storage.recover_epoch(max_epoch + 1)` without the TCP fetch)
+            use std::sync::Arc;
+            use undermoon::broker::{JsonFileStorage, JsonMetaReplicator, MemBrokerConfig, MemBrokerService, StorageConfig};
+            let cfg = MemBrokerConfig {
+                address: "127.0.0.1:0".to_string(),
+                failure_ttl: 60,
+                failure_quorum: 1,
+                migration_limit: 0,
+                recover_from_meta_file: false,
+                meta_filename: "/nonexistent/verif-metadata".to_string(),
+                auto_update_meta_file: false,
+                update_meta_file_interval: None,
+                replica_addresses: Arc::new(arc_swap::ArcSwap::new(Arc::new(vec![]))),
+                sync_meta_interval: None,
+                enable_ordered_proxy: st.enable_ordered_proxy,
+                storage: StorageConfig::Memory,
+                debug: false,
+            };
+            let persistence = Arc::new(JsonFileStorage::new(cfg.meta_filename.clone()));
+            let replicator = Arc::new(JsonMetaReplicator::new(cfg.replica_addresses.clone(), reqwest::Client::new()));
+            let snapshot = st.clone();
+            let m = u(toks[1]);
+            let res = rt_block(async move {
+                let svc = MemBrokerService::new(cfg, ClusterConfig::default(), persistence, replicator, Some(snapshot))?;
+                svc.recover_epoch_with_max(m).await?;
+                svc.get_all_data().await
+            });
+            match res {
+                Ok(new_store) => {
+                    *st = new_store;
+                    (same, "ok".to_string())
+                }
+                Err(e) => (same, err_s(&e)),
+            }
         }
         "restore" => {
             let k: usize = toks[1].parse().expect("k");
